@@ -238,7 +238,16 @@ func (s *c08Spec) kindVersion() string {
 	return c08KindVersion[s.Kind]
 }
 
+// newObject returns the resource with an empty status (entries lists empty, not nil: the API server serves []).
 func (s *c08Spec) newObject() client.Object {
+	obj := s.newBareObject()
+	if c08Merge(s.Kind) {
+		c08SetEntries(obj, nil)
+	}
+	return obj
+}
+
+func (s *c08Spec) newBareObject() client.Object {
 	om := metav1.ObjectMeta{Namespace: s.Ns, Name: s.Name, Generation: s.Gen}
 	switch s.Kind {
 	case c08HTTP:
